@@ -427,3 +427,20 @@ package main
 //@   opt noreplay flagSet reads the process environment, the file system and os.Args
 //@   modifies opts
 // <<< generated
+
+// >>> field snapshots (govc -gen-names)
+//@ fields IPFIX port addr workers stop stats pool
+//@ fields IPFIXStats UDPQueue UDPMirrorQueue MessageQueue UDPCount DecodedCount MQErrorCount Workers
+//@ fields IPFIXUDPMsg raddr body
+//@ fields NetflowV5 port addr workers stop stats pool
+//@ fields NetflowV5Stats UDPQueue MessageQueue UDPCount DecodedCount MQErrorCount Workers
+//@ fields NetflowV5UDPMsg raddr body
+//@ fields NetflowV9 port addr workers stop stats pool
+//@ fields NetflowV9Stats UDPQueue MessageQueue UDPCount DecodedCount MQErrorCount Workers
+//@ fields NetflowV9UDPMsg raddr body
+//@ fields Options Verbose LogFile PIDFile CPUCap DynWorkers Logger version StatsEnabled StatsFormat StatsHTTPAddr StatsHTTPPort SFlowEnabled SFlowPort SFlowAddr SFlowUDPSize SFlowWorkers SFlowTopic SFlowMirrorAddr SFlowMirrorPort SFlowMirrorWorkers SFlowTypeFilter IPFIXEnabled IPFIXRPCEnabled IPFIXPort IPFIXAddr IPFIXUDPSize IPFIXWorkers IPFIXTopic IPFIXMirrorAddr IPFIXMirrorPort IPFIXMirrorWorkers IPFIXTplCacheFile NetflowV5Enabled NetflowV5Port NetflowV5Addr NetflowV5UDPSize NetflowV5Workers NetflowV5Topic NetflowV9Enabled NetflowV9Port NetflowV9Addr NetflowV9UDPSize NetflowV9Workers NetflowV9Topic NetflowV9TplCacheFile ProducerEnabled MQName MQConfigFile VFlowConfigPath
+//@ fields SFUDPMsg raddr body
+//@ fields SFlow port addr workers stop stats conn pool
+//@ fields SFlowStats UDPQueue MessageQueue UDPCount DecodedCount MQErrorCount Workers
+//@ fields rest StartTime IPFIX SFlow NetflowV5 NetflowV9
+// <<< field snapshots
